@@ -66,4 +66,21 @@ PROPS = {
                          "asked for is minimal",
         "assumes": ["the scanners are modelled as parser programs (Text.v); program-to-reader link by the tx stream and Simulation.v"],
     },
+    "C13": {
+        "streams": [
+            {"name": "tx_digits", "module": "tx", "quick": 6000, "thorough": 120000, "profiles": ["debug", "release"],
+             "oracle_prefix": "o_tx", "args": {"kind": "digits"}},
+            {"name": "o_tx_digits", "module": "tx", "quick": 6000, "thorough": 120000, "kind": "oracle",
+             "profiles": ["debug"], "args": {"kind": "digits", "prefix": "o_tx"}},
+        ],
+        "rule": "direct calls of ascii_digits / signed_ascii_digits / ascii_digits_multi / signed_ascii_digits_multi through a "
+                "DeferredReader for all 12 modelled integer types; digit strings of length 0..45 around every type's MIN/MAX +-1, "
+                "leading zeros, random tails, every amount of pre-buffered data around offset+7/8/9 (fast vs cold path), small chunk "
+                "sizes and short reads; kernel lanes: 0..8 digits followed by each of the 256 byte values (sampled in quick, complete "
+                "in thorough); non-trivial = input of at least 2 bytes; distinct by case text",
+        "theorems_note": "Props/C13.v: SWAR kernel for every 64-bit word; simple scanners exact; multi variants = simple for every "
+                         "admissible buffering answer",
+        "assumes": ["num_traits overflowing_mul/add/sub and from_u32/from_i32 as modelled in Text.v (wrap + exact-range flag)",
+                    "signed_ascii_digits is modelled for signed types (for unsigned types '-d' underflows: Crash POverflow in the model)"],
+    },
 }
